@@ -83,6 +83,15 @@ package db
 //@     && str(key[:min(len(bd.baseDb.sid), len(key))]) == str(bd.baseDb.sid) && result0 == key[len(bd.baseDb.sid):]
 //@   ensures[C11] @foreign len(bd.baseDb.sid) > 0 && !(len(key) >= len(bd.baseDb.sid) && str(key[:min(len(bd.baseDb.sid), len(key))]) == str(bd.baseDb.sid)) ==> result1 != nil
 
+// DecodeKey (used by every backend's listing): the type byte is dropped, and the
+// session prefix is expected - and cut off - exactly on session-scoped types.
+//@ func (*DbBase).DecodeKey
+//@   serves C10, C11
+//@   requires baseOk(bd)
+//@   ensures[C10] @unsessioned len(key) >= 2 && !sessioned(key[0]) && !translatable(key[0]) ==> result1 == nil && str(result0) == str(key[1:])
+//@   ensures[C11] @own result1 == nil && len(key) >= 2 && sessioned(key[0]) && len(bd.baseDb.sid) > 0 ==> len(key) - 1 >= len(bd.baseDb.sid)
+//@     && str(key[1:][:min(len(bd.baseDb.sid), len(key) - 1)]) == str(bd.baseDb.sid)
+
 //@ func ToDbKey
 //@   serves C10, C11
 //@   modifies b[len(b):cap(b)]
